@@ -86,7 +86,21 @@ def empties_world():
 EXTRA = {'lazy': lazy_world, 'mem': mem_world, 'shared': shared_world, 'empties': empties_world}
 
 
+# name mode: the second config's name merely extends the first one's (exp_big) or is a name the library gives to its own
+# temporaries; last task a directory / a file / a list of arrays
+NAMEMODE_OTHERS = (('exp_big', 'dir'), ('exp_tmp', 'json'), ('exp_tmp', 'list_of_numpy'), ('exp_tmp', 'dir'), ('exp_old', 'dir'), ('exp_old', 'list_of_numpy'), ('exp_error', 'dir'))
+
+
+def namemode_desc(other, ck):
+    d = families.namemode(other, ck)
+    d['name'] = 'namemode' if (other, ck) == ('exp_big', 'dir') else f'namemode-{other}-{ck}'
+    return d
+
+
 def get_desc(name):
+    if name.startswith('namemode-'):
+        _, other, ck = name.split('-', 2)
+        return namemode_desc(other, ck)
     return (EXTRA.get(name) or families.ALL[name])()
 
 
@@ -132,10 +146,13 @@ def judge(desc, spec):
 def _namemode_templates():
     """name mode, config names extending each other (exp / exp_big), one directory: constructing / inspecting / computing one
     config never costs the other one a re-run"""
-    desc = families.namemode()
-    jf = judge(desc, None)
     res = Result()
-    for first, second in (('exp_big', 'exp'), ('exp', 'exp_big')):
+    pairs = []
+    for other, ck in NAMEMODE_OTHERS:
+        pairs += [(other, ck, other, 'exp'), (other, ck, 'exp', other)]
+    for other, ck, first, second in pairs:
+        desc = namemode_desc(other, ck)
+        jf = judge(desc, None)
         for mid in ([['inspect', 1]], [['value', 1, 'c']], [['inspect', 1], ['value', 1, 'a'], ['inspect', 1]]):
             h = [['new', 0, first], ['value', 0, 'c'], ['new', 1, second]] + mid + [['restart'], ['new', 0, first], ['inspect', 0], ['value', 0, 'c'], ['value', 0, 'a'], ['new', 1, second], ['inspect', 1], ['value', 1, 'c']]
             vs, c, ov = histories.run_history(desc, h, jf, parameter_mode=False)
@@ -220,5 +237,5 @@ def replay(case):
         return [V(v['signature'], v['what'], v['case']) for v in vs]
     desc = get_desc(case['world'])
     sp = specs.build(desc, ops=('new',))
-    vs, c, ov = histories.run_history(desc, case['hist'], judge(desc, sp), parameter_mode=desc['name'] != 'namemode')
+    vs, c, ov = histories.run_history(desc, case['hist'], judge(desc, sp), parameter_mode=not desc['name'].startswith('namemode'))
     return vs
